@@ -53,4 +53,10 @@ func (r *Reader) VerifElements() []VerifElem {
 		}
 	}
 	return out
+
+// VerifShouldExcludeParagraph exposes (*Reader).shouldExcludeParagraph for a
+// reader holding the given header/footer part texts (verification harness only).
+func VerifShouldExcludeParagraph(text string, headerTexts, footerTexts []string, opts ExtractOptions) bool {
+	r := &Reader{headerTexts: headerTexts, footerTexts: footerTexts}
+	return r.shouldExcludeParagraph(text, opts)
 }
